@@ -1018,7 +1018,7 @@ def optimize_lbfgsb(p0, data, model_func, pts,
     p0 = _project_params_down(p0, fixed_params)
 
     outputs = scipy.optimize.fmin_l_bfgs_b(_object_func, 
-                                           numpy.log(p0), bounds=bounds,
+                                           p0, bounds=bounds,
                                            epsilon=epsilon, args=args,
                                            pgtol=pgtol,
                                            maxfun=maxiter, approx_grad=True)
